@@ -147,7 +147,8 @@ add('COPY',
     Rule('X-COPY', '$o:i.slice()[$e:e] = $v:e;', '$o.set($e, $v);'))
 
 # X-RET: no `dyn` in Verus; the id identifies the field.
-add('RET', Rule('X-RET', 'BlockRet::WaitForStream(&self.$f:i, $n:e)', 'BlockRet::WaitForStream(self.$f.wait_id(), $n)'))
+add('RET', Rule('X-RET', 'BlockRet::WaitForStream(&self.$f:i, $n:e,)', 'BlockRet::WaitForStream(self.$f.wait_id(), $n)'),
+    Rule('X-RET', 'BlockRet::WaitForStream(&self.$f:i, $n:e)', 'BlockRet::WaitForStream(self.$f.wait_id(), $n)'))
 
 # X-TAGFILTER: iterator adapters are outside Verus.
 _CMP = (('<', 'lt'), ('<=', 'le'), ('>', 'gt'), ('>=', 'ge'))
@@ -307,6 +308,31 @@ add('WPCR',
     Rule('X-WPCR', 'v.iter().map(|t| t - offset).collect::<Vec<_>>()', 'shifted(&v, offset)'),
     Rule('X-WPCR', '*$a:i > *$b:i', 'f_gt(*$a, *$b)'),
     Rule('X-WPCR', '*$a:i > $b:i', 'f_gt(*$a, $b)'))
+
+# X-FFTF (unit fftfilter): Vec / iterator idioms of fft_filter.rs
+add('FFTF',
+    Rule('X-FFTF', 'self.buf_tags.extend(tags.iter().filter(|t| t.pos() < $n:e).map(|t| Tag::new(t.pos() + $b:e, t.key(), t.val().clone())) $_:c);',
+         'extend_shifted_tags(&mut self.buf_tags, &tags, $n, $b);', stmt_start=True),
+    Rule('X-FFTF', 'self.buf.extend(input.iter().take($n:e).copied());', 'extend_from_window(&mut self.buf, &input, $n);', stmt_start=True),
+    Rule('X-FFTF', 'self.buf.resize($n:e, Complex::default());', 'resize_zero(&mut self.buf, $n);', stmt_start=True),
+    Rule('X-FFTF', 'self.engine.run(&mut self.buf);', 'engine_run(&mut self.engine, &mut self.buf);', stmt_start=True),
+    Rule('X-FFTF', 'for ($i:i, $t:i) in self.tail.iter().enumerate() $body:b',
+         '{ let mut $i: usize = 0; while $i < self.tail.len() { let $t = self.tail[$i]; $body $i += 1; } }'),
+    Rule('X-FFTF', 'for $i:i in 0..self.tail.len() $body:b', '{ let mut $i: usize = 0; while $i < self.tail.len() { $body $i += 1; } }'),
+    Rule('X-FFTF', 'self.buf[$i:e] += $t:i;', '{ let __x = cadd(self.buf[$i], $t); self.buf[$i] = __x; }', stmt_start=True),
+    Rule('X-FFTF', '&self.buf[..$n:e]', 'vec_prefix(&self.buf, $n)'))
+
+# X-AUE (unit auenc): AuEncode::work idioms (local alias `type S = i16;`)
+add('AUE',
+    Rule('X-AUE', 'type S = i16;', '', stmt_start=True),
+    Rule('X-AUE', 'S::MAX as Float', 'i16_max_as_float()'),
+    Rule('X-AUE', 'std::mem::size_of::<S>()', 'size_of_i16()'),
+    Rule('X-AUE', '($w:i.slice()[$j:e] * scale) as S', 'quant16(*$w.get_ref($j), scale)'),
+    Rule('X-AUE', '$o:i.slice()[$a:e..$b:e].clone_from_slice(&$v:i.to_be_bytes());', '$o.put_be16($a, $b, $v);', stmt_start=True),
+    Rule('X-AUE', 'self.header.as_mut().unwrap().drain(0..$n:e);', 'header_drain(&mut self.header, $n);', stmt_start=True),
+    Rule('X-AUE', 'self.header.as_ref().unwrap().is_empty()', 'header_is_empty(&self.header)'),
+    Rule('X-AUE', '&h[..$n:e]', 'vec_prefix_u8(h, $n)'),
+    Rule('X-AUE', 'for $i:i in 0..$n:i $body:b', '{ let mut $i: usize = 0; while $i < $n { $body $i += 1; } }'))
 
 # X-ZC (unit zc): float expressions of zero_crossing.rs become calls of uninterpreted functions; the optional clock stream
 add('ZC',
